@@ -222,7 +222,7 @@ func vCheckWrite(pre, post *vState, bp *[vMaxCap + 2]uint32, l int, n int) {
 		}
 	}
 	verif.Assert("write-appends-batch-prefix-in-order", ok)
-	if n > 0 && pre.wi+n > pre.c {
+	if vAnd(n > 0, pre.wi+n > pre.c) {
 		verif.Cover("write-wraps-around")
 	}
 	if n < l {
@@ -250,21 +250,19 @@ func vCheckRead(pre, post *vState, out EntryList, l int, n int) {
 	verif.Assert("read-accounting", post.rd == pre.rd-n)
 	ok := true
 	for j := 0; j < l; j++ {
-		if j < n {
-			e := out[j]
-			if e == nil {
-				ok = false
-			} else {
-				differs := e.(uint32) != pre.at(j)
-				if differs {
-					ok = false
-				}
-			}
+		e := out[j]
+		var v uint32
+		if e != nil {
+			v = e.(uint32)
+		}
+		bad := vAnd(j < n, vOr(e == nil, v != pre.at(vClamp(j, pre.c))))
+		if bad {
+			ok = false
 		}
 	}
 	verif.Assert("read-returns-oldest-entries-in-write-order", ok)
 	verif.Assert("read-keeps-the-rest-in-order", vSameQueue(post, 0, pre, n, pre.rd-n))
-	if n > 0 && pre.ri+n > pre.c {
+	if vAnd(n > 0, pre.ri+n > pre.c) {
 		verif.Cover("read-wraps-around")
 	}
 	if n < l {
@@ -276,8 +274,8 @@ func vCheckRead(pre, post *vState, out EntryList, l int, n int) {
 
 // VerifC48Write: one Write (blocking flag symbolic) in any state in which it does not have to wait.
 func VerifC48Write() {
-	c := verif.Param("cap")
-	l := verif.Choose("len", c+3)
+	c := vCap()
+	l := verif.Choose("len", c+1+verif.Param("over")) // batch / buffer length 0 .. c+over
 	block := verif.NondetBool("block")
 	pre := vHavoc("pre", c)
 	mustWait := vAnd(vAnd(block, l > 0), vAnd(pre.wr == 0, !pre.closed))
@@ -301,8 +299,8 @@ func VerifC48Write() {
 
 // VerifC48Read: one Read in any state in which it does not have to wait.
 func VerifC48Read() {
-	c := verif.Param("cap")
-	l := verif.Choose("len", c+3)
+	c := vCap()
+	l := verif.Choose("len", c+1+verif.Param("over")) // batch / buffer length 0 .. c+over
 	block := verif.NondetBool("block")
 	pre := vHavoc("pre", c)
 	mustWait := vAnd(vAnd(block, l > 0), vAnd(pre.rd == 0, !pre.closed))
@@ -326,7 +324,7 @@ func VerifC48Read() {
 
 // VerifC48Close: Close in any state (including closed already).
 func VerifC48Close() {
-	c := verif.Param("cap")
+	c := vCap()
 	pre := vHavoc("pre", c)
 	r := vNewRing(&pre)
 	verifPark(r.readableC, 2)
@@ -350,8 +348,8 @@ func VerifC48Close() {
 
 // VerifC48WriteTwin is the reachability twin: a Write can change the number of stored entries.
 func VerifC48WriteTwin() {
-	c := verif.Param("cap")
-	l := verif.Choose("len", c+3)
+	c := vCap()
+	l := verif.Choose("len", c+1+verif.Param("over")) // batch / buffer length 0 .. c+over
 	pre := vHavoc("pre", c)
 	r := vNewRing(&pre)
 	batch, _ := vBatch(l)
